@@ -3,7 +3,8 @@
                n_templates, sparse_clusters.data and get_cluster_mean_waveforms on clusters without a count tie)
           20 = a well-formed dataset failed to load / a mean-waveform query raised
           21 = C08_merge_map: keys are not 0..max or some value is not exactly the increasing templates of the id's spikes
-          22 = C08_merge_map: nan_idx is not exactly the ids of [0, max] without spikes
+          22 = C08_merge_map / C08_nan_idx_both_branches: nan_idx is not exactly the ids of [0, max] (curated) /
+               of range(n_templates) (clusters = templates) without spikes
           23 = C08_single: a cluster stemming from one template does not carry that template unchanged
           24 = C08_mean: a cluster stemming from several templates is not, for ANY dominant template, the
                count-weighted mean of the channel-restricted templates on that template's channels, zero elsewhere
@@ -172,7 +173,7 @@ Definition check (c : case) : list Z :=
        else []) ++
       flag 23 (single_b d (o_data o)) ++
       flag 24 (mean_b d (o_data o)) ++
-      (if cur then [] else flag 25 (identity_b d o)) ++
+      (if cur then [] else flag 22 (nan_n_b (n_templates d) (d_sc d) (o_nan o)) ++ flag 25 (identity_b d o)) ++
       flag 26 (mean_fns_b d false (o_mean_w o) && mean_fns_b d true (o_mean_u o))
   end end.
 
